@@ -251,6 +251,7 @@ class RecordOf(T):
         """element k (counted from the right end) of the symbolic-length list `rid`: every field is an uninterpreted function of the position"""
         cls = self.cls if not isinstance(self.cls, str) else resolve(self.cls)[0]
         r = Rec(cls)
+        r.__dict__['list_element'] = True        # a view of element k: assignments to its fields would be lost (refused by the interpreter)
         for name, t in self.fields.items():
             if not isinstance(t, T):
                 r.attrs[name] = t
